@@ -146,6 +146,17 @@ def drive_watch(ctx, exe, srcs, model, violations, seq=None, feat=0):
         extra = [srcs[i][1] for i in range(len(srcs)) if srcs[i][0] == feat][:200:17][: (3 if ctx.tier == "quick" else 12)]
         seq = (STACK_SEQ + designed[:2] if feat else designed + STACK_SEQ[:4]) + extra
     verdicts = ctx.run_model([C06.obj_case(feat, t) for t in seq], tag="watchobj%d" % feat)
+    # the watcher MODEL (Watch.v: one process, symbol table threaded from re-check to re-check, reset after each) on the
+    # whole sequence; C07_watch proves it equal to the per-version verdicts just computed - checked here on the run as well
+    nums = [feat, len(seq)]
+    for t in seq:
+        nums += [len(t)] + [ord(c) for c in t]
+    wm = ctx.run_model(["WATCH " + " ".join(f"{v:x}" for v in nums)], tag="watchseq%d" % feat)
+    wverd = [int(x, 16) for x in wm[0][0].split()] if wm and wm[0] and wm[0][0].strip() else []
+    per = [int(v[0].split()[0], 16) for v in verdicts]
+    if wverd != per:
+        violations.append({"kind": "watch-model-differs-from-check-model", "no_failing_input": True, "flag": feat, "sequence": seq,
+                           "watch_model": wverd, "check_model": per})
     d = clicommon.fresh_dir(ctx, "watchdir%d" % feat)
     logf = os.path.join(ctx.work, "watch%d.out" % feat)
     f = os.path.join(d, "w.asm")
@@ -197,7 +208,8 @@ def drive_watch(ctx, exe, srcs, model, violations, seq=None, feat=0):
                                    "source": text, "watch_output": last[-400:], "model_exit": me})
     finally:
         p.kill(); p.wait(); out.close()
-    return {"rechecks": rechecks, "disagreements": bad, "sequence_length": len(seq), "flag": feat, "no_event_observed": unobserved}
+    return {"rechecks": rechecks, "disagreements": bad, "sequence_length": len(seq), "flag": feat, "no_event_observed": unobserved,
+            "watch_model_equals_check_model": wverd == per}
 
 
 def replay(ctx, payload):
